@@ -99,8 +99,9 @@ def jobs(tier):
 
 ASSUME = [
     "ring substitution: fill_* are compiled with double complex -> unsigned char (Z/256) on the mechanically extracted text: IEEE rounding, overflow, NaN dropped; indices, bounds, offsets, signs, operands kept",
-    "the linear kernels (_vnacommon_mldivide/mrdivide/qrsolve) are assumed to return the solution of the system they are given",
-    "link 2 (cell mapping of _vnacal_new_add_common) only along real histories with a two-port standard, abbreviated 2x2 M and all port orders on a 3x3 calibration; NOT covered: _vnacal_new_build_equation_terms, fill_u8/u16/ue14/e12, solve loops, accuracy: the end-to-end numerical statement of C01 is out of reach",
+    "the linear kernels (_vnacommon_mldivide/mrdivide/qrsolve) are assumed to return the solution of the system they are given; in the apply frame they and _vnacal_rfi are recording contracts (marker values)",
+    "link 2 (cell mapping of _vnacal_new_add_common) only along real histories with a two-port standard, abbreviated 2x2 M and all port orders on a 3x3 calibration; the parameter collection along concrete handle sequences; the apply frame on 2x2 calibrations with 3 calibration and 0 or 2 requested frequencies, m form",
+    "NOT covered: _vnacal_new_build_equation_terms, fill_e12 (divisions), solve loops, a/b forms of apply, rfi values between knots, accuracy: the end-to-end numerical statement of C01 is out of reach",
 ]
 TRUSTED = ["CBMC 6.11 DFCC", "gen/extract_fn.py (line-anchored extraction)", "harness/vnacal/c01_fill.c (documented forms restated)"]
 
@@ -111,4 +112,4 @@ def main(tier, only=None):
         J = [j for j in J if re.search(only, j.name)]
     return V.run_property("C01", J, tier, level="proof", assumptions=ASSUME, trusted_base=TRUSTED,
                           min_obligations=100, extra_coverage=dict(extraction_sha256=SHAS),
-                          technique="DFCC function contract on _vnacal_layout; ring-substituted cell-wise contracts on the extracted fill_t8/fill_t16")
+                          technique="DFCC function contract on _vnacal_layout; ring-substituted cell-wise contracts on the extracted fill_* functions; CBMC contract harnesses (cell map, parameter collection, apply frame with recording contracts)")
